@@ -105,6 +105,24 @@ def main():
             pairs.append(("p.patch", patch.encode(), "a.go", src.encode()))
             metas.append({"part": "table", "patch_form": pl, "file_form": fl, "patch_pkg": ppkg, "file_pkg": fpkg, "on": "-" if on_minus else "context",
                           "layout": layout, "expect": exp})
+    # (1c) the table again with code patterns of other shapes: an expression replaced by several statements (the parser turns
+    # the '-' side into a one-statement list), several statements replaced by one expression, a statement with an elision
+    SHAPES = [("old(x)", "prepare(x)\n+renamed(x)"), ("old(x)\n-foo.Old(2)", "renamed(x)"), ("old(x)\n ...\n-baz.Old(4)", "renamed(x)"),
+              ("func h() {", "func renamed() {\n   ...\n }")]
+    for (pl, pform), (fl, fnames), ppkg, fpkg in itertools.product(PFORMS, FFORMS[:8], PPKG[:4], FPKG[:2]):
+        for on_minus in (False, True):
+            k += 1
+            if (on_minus and pform == "absent") or (not thorough and k % 2):
+                continue
+            sh = SHAPES[k % len(SHAPES)]
+            patch = make_patch(ppkg, pform, "absent", on_minus, sh)
+            if sh[0].startswith("func"):
+                patch = patch.replace("-func h() {\n+func renamed() {\n   ...\n }\n", "-func h() {\n+func renamed() {\n   ...\n }\n")
+            src = make_file(fpkg, fnames, [], LAYOUT[k % 4], BODY)
+            exp = (ppkg is None or ppkg == fpkg) and ref_import(pform, fnames)
+            pairs.append(("p.patch", patch.encode(), "a.go", src.encode()))
+            metas.append({"part": "table-code-shapes", "patch_form": pl, "file_form": fl, "patch_pkg": ppkg, "file_pkg": fpkg, "on": "-" if on_minus else "context",
+                          "layout": LAYOUT[k % 4], "expect": exp, "shape": sh[0].split("\n")[0] + " -> " + sh[1].split("\n")[0]})
     # (1b) the same table with import paths written as raw strings in the file, and with the patch's package name declared as a
     # metavariable of the change (the clause still names that package, literally)
     for (pl, pform), (fl, fnames), ppkg, fpkg in itertools.product(PFORMS, FFORMS[:8], PPKG[:4], FPKG[:2]):
